@@ -1,6 +1,7 @@
 package main
 
 import (
+	"context"
 	"encoding/json"
 	"fmt"
 	"sync/atomic"
@@ -61,8 +62,18 @@ type c08Case struct {
 	J2     int      `json:"raise2_at_access,omitempty"` // second request (thorough); 0 = none
 	NMI2   bool     `json:"nmi2,omitempty"`
 	Stale  bool     `json:"stale_halt_flag"`
-	Salt   uint32   `json:"salt"`
+	// Ctx: the context Run is given: 0 context.Background(); 1 a WithCancel context nobody cancels while Run
+	// executes; 2 a WithValue child of Background (Done() == nil, not the Background singleton)
+	Ctx int `json:"context_kind,omitempty"`
+	// BPOp: the embedder's debugger edits the breakpoints from inside the device callback at access BPAt:
+	// 1 installs the map (the field was nil when Run was entered); 2 sets the field to nil; 3 adds the
+	// addresses to the (initially empty, non-nil) map
+	BPOp int    `json:"breakpoint_edit,omitempty"`
+	BPAt int    `json:"breakpoint_edit_at_access,omitempty"`
+	Salt uint32 `json:"salt"`
 }
+
+type c08Key struct{}
 
 type c08Side struct {
 	cpu  z80.CPU
@@ -73,6 +84,11 @@ type c08Side struct {
 	nmi  bool
 	j2   int
 	nmi2 bool
+	bpOp int
+	bpAt int
+	bps  []uint16
+	// edited: the callback has performed the breakpoint edit
+	edited bool
 }
 
 func newC08Side(bg *[65536]uint8) *c08Side {
@@ -92,6 +108,23 @@ func newC08Side(bg *[65536]uint8) *c08Side {
 				s.cpu.Interrupt = z80.NMIInterrupt()
 			} else {
 				s.cpu.Interrupt = z80.IM1Interrupt()
+			}
+		}
+		if s.bpOp != 0 && s.n == s.bpAt && !s.edited {
+			s.edited = true
+			switch s.bpOp {
+			case 1:
+				m := map[uint16]struct{}{}
+				for _, b := range s.bps {
+					m[b] = struct{}{}
+				}
+				s.cpu.BreakPoints = m
+			case 2:
+				s.cpu.BreakPoints = nil
+			case 3:
+				for _, b := range s.bps {
+					s.cpu.BreakPoints[b] = struct{}{}
+				}
 			}
 		}
 		s.n++
@@ -117,13 +150,38 @@ func (s *c08Side) load(p *c08Prog, cs *c08Case) {
 	toCPU(&st, &s.cpu)
 	s.cpu.Interrupt = nil
 	s.cpu.BreakPoints = nil
-	if !cs.NilMap {
+	if !cs.NilMap && cs.BPOp != 1 {
 		s.cpu.BreakPoints = map[uint16]struct{}{}
-		for _, b := range cs.BPs {
-			s.cpu.BreakPoints[b] = struct{}{}
+		if cs.BPOp != 3 {
+			for _, b := range cs.BPs {
+				s.cpu.BreakPoints[b] = struct{}{}
+			}
 		}
 	}
 	s.n, s.j, s.nmi, s.j2, s.nmi2 = 0, cs.J, cs.NMI, cs.J2, cs.NMI2
+	s.bpOp, s.bpAt, s.bps, s.edited = cs.BPOp, cs.BPAt, cs.BPs, false
+}
+
+// wantBPs: what the embedder's breakpoint field must hold now (nil map or exactly these addresses).
+func (s *c08Side) wantBPs(cs *c08Case) (isNil bool, addrs []uint16) {
+	switch cs.BPOp {
+	case 1:
+		if !s.edited {
+			return true, nil
+		}
+		return false, cs.BPs
+	case 2:
+		if s.edited {
+			return true, nil
+		}
+		return false, cs.BPs
+	case 3:
+		if !s.edited {
+			return false, nil
+		}
+		return false, cs.BPs
+	}
+	return cs.NilMap, cs.BPs
 }
 
 // twinRun applies the stop rule of the statement around Step.
@@ -169,7 +227,15 @@ func c08One(a, b *c08Side, p *c08Prog, cs *c08Case) (d []string, totalSteps int)
 		var errR error
 		func() {
 			defer func() { panR = recover() }()
-			errR = a.cpu.Run(bgCtx)
+			ctx, release := bgCtx, func() {}
+			switch cs.Ctx {
+			case 1:
+				ctx, release = context.WithCancel(bgCtx)
+			case 2:
+				ctx = context.WithValue(bgCtx, c08Key{}, 1)
+			}
+			defer release()
+			errR = a.cpu.Run(ctx)
 		}()
 		if panR != nil {
 			if _, ok := panR.(obs.Watchdog); ok {
@@ -197,11 +263,11 @@ func c08One(a, b *c08Side, p *c08Prog, cs *c08Case) (d []string, totalSteps int)
 			d = append(d, fmt.Sprintf("memory[%04X] differs after Run #%d", addr, run+1))
 		}
 		// the breakpoint set belongs to the embedder: Run must not change it
-		if !cs.NilMap {
-			if a.cpu.BreakPoints == nil || len(a.cpu.BreakPoints) != len(cs.BPs) {
-				d = append(d, fmt.Sprintf("Run #%d changed the BreakPoints map (now %d entries, was %d)", run+1, len(a.cpu.BreakPoints), len(cs.BPs)))
+		if wantNil, want := a.wantBPs(cs); !wantNil {
+			if a.cpu.BreakPoints == nil || len(a.cpu.BreakPoints) != len(want) {
+				d = append(d, fmt.Sprintf("Run #%d changed the BreakPoints map (now %d entries, the embedder put %d)", run+1, len(a.cpu.BreakPoints), len(want)))
 			} else {
-				for _, bp := range cs.BPs {
+				for _, bp := range want {
 					if _, ok := a.cpu.BreakPoints[bp]; !ok {
 						d = append(d, fmt.Sprintf("Run #%d removed breakpoint %04X from the map", run+1, bp))
 					}
@@ -246,7 +312,27 @@ func checkC08(c *Ctx) {
 		cases = append(cases, c08Case{Prog: pi, NilMap: true, Runs: 4, J: -1, Stale: true, Salt: c.Salt})
 		cases = append(cases, c08Case{Prog: pi, BPs: []uint16{p.pc}, Runs: 4, J: -1, Stale: true, Salt: c.Salt})
 	}
-	c.Rule = fmt.Sprintf("%d terminating programs (straight line; HALT first; multi-byte instruction with a breakpoint inside; code wrapping FFFF->0000 into a HALT; DJNZ loop with a breakpoint on its head; LDIR with a breakpoint on itself; CALL/RET; EI + IN/OUT with handlers; DI;HALT; prefix-only tail; JP; HALT at FFFF; HALT at 0000; HALT;HALT) x all subsets of each program's 2..5 candidate breakpoint addresses + nil map + stale halted indication (%d configurations) x history Run;Run;Run;Run x {no request, NMI or IM1 raised from inside the memory/port callback at every access index j of the history}. Oracle: Step-driven twin with the stop rule applied outside. Non-trivial = histories with at least one breakpoint hit or callback-raised request (counted).", len(progs), len(cases))
+	// the same configurations under the other context kinds
+	for i, n := 0, len(cases); i < n; i++ {
+		for kind := 1; kind <= 2; kind++ {
+			cs := cases[i]
+			cs.Ctx = kind
+			cases = append(cases, cs)
+		}
+	}
+	nEdit := 0
+	for pi, p := range progs {
+		// the debugger edits the breakpoints from inside a device callback, at every access index
+		for op := 1; op <= 3; op++ {
+			for at := 0; at < 40; at++ {
+				for _, bps := range [][]uint16{p.bps, p.bps[len(p.bps)-1:], p.bps[1:2]} {
+					cases = append(cases, c08Case{Prog: pi, BPs: bps, Runs: 4, J: -1, BPOp: op, BPAt: at, Ctx: at % 2, Salt: c.Salt})
+					nEdit++
+				}
+			}
+		}
+	}
+	c.Rule = fmt.Sprintf("%d terminating programs (straight line; HALT first; multi-byte instruction with a breakpoint inside; code wrapping FFFF->0000 into a HALT; DJNZ loop with a breakpoint on its head; LDIR with a breakpoint on itself; CALL/RET; EI + IN/OUT with handlers; DI;HALT; prefix-only tail; JP; HALT at FFFF; HALT at 0000; HALT;HALT) x all subsets of each program's 2..5 candidate breakpoint addresses + nil map + stale halted indication (%d configurations) x history Run;Run;Run;Run x {no request, NMI or IM1 raised from inside the memory/port callback at every access index j of the history}. Contexts: Background, a WithCancel context nobody cancels, a WithValue child. Breakpoint edits from inside a device callback at every access index 0..39 (install the map when the field was nil on entry; set the field to nil; add addresses to an empty map) x 3 address sets. Oracle: Step-driven twin with the stop rule applied outside. Non-trivial = histories with at least one breakpoint hit or callback-raised request (counted).", len(progs), len(cases))
 	c.Bound = "4 Run calls; <=1 callback-raised request at every access index (thorough: <=2, every pair of indices)"
 	bg := obsBackground(c)
 	type sidePair struct{ a, b *c08Side }
@@ -268,6 +354,13 @@ func checkC08(c *Ctx) {
 			st += int64(n)
 			if len(cs.BPs) > 0 {
 				nt++
+			}
+			if cs.BPOp != 0 || cs.Ctx == 2 {
+				if d != nil {
+					cs.Name = p.name
+					c.Report(fmt.Sprintf("c08/run:%s", p.name), ci*1000, "", cs, cloneStrings(append([]string{fmt.Sprintf("program %q, breakpoints %04X, context kind %d, breakpoint edit %d at access %d", p.name, cs.BPs, cs.Ctx, cs.BPOp, cs.BPAt)}, d...)))
+				}
+				continue // no request sweep for these
 			}
 			report := func(d []string) {
 				cs.Name = p.name
@@ -330,7 +423,7 @@ func checkC08(c *Ctx) {
 	c.Set("configurations", len(cases))
 	c.Sample(c08Case{Prog: 5, Name: progs[5].name, BPs: []uint16{0x0109}, Runs: 4, J: 17, NMI: true})
 	c.Sample(c08Case{Prog: 3, Name: progs[3].name, BPs: []uint16{0x0000, 0xFFFF}, Runs: 4, J: -1})
-	c.Assume("Run is called with context.Background(); cancellation is C13's subject")
+	c.Assume("the contexts are never cancelled here; cancellation is C13's subject")
 	c.Assume("'never stops earlier or later' is decided by the exact equality of the memory access sequences of Run and of the twin's Steps")
 }
 
